@@ -25,7 +25,7 @@ FUNCTIONS['bdd'] = ['find_isomorph', 'BDDNode.__reset__', 'BDDNonTerminalNode.__
 FUNCTIONS['bddops'] = ['BDDNonTerminalNode.__invert__', 'BDDTerminalNode.__invert__', 'cache_restrict', 'compute_restrict',
                        'apply', 'compute', 'BDDsons_and_BDD', 'BDD_and_BDDsons', 'BDDsons_and_BDDsons']
 FUNCTIONS['bddops'] += ['BDDTerminalNode.__reset__', 'BDDTerminalNode.__new__']
-FUNCTIONS['bddops'] += ['BDDNode.restrict', 'OBDD.restrict']
+FUNCTIONS['bddops'] += ['BDDNode.restrict', 'OBDD.restrict', 'descendents', 'BDDNode.descendents', 'BDDNode.variables']
 FUNCTIONS['bddops'] += ['OBDD.__init__', 'OBDD.apply', 'OBDD.__and__', 'OBDD.__or__', 'OBDD.__xor__', 'OBDD.__invert__']
 PROPERTY_FUNCTIONS = {
     'C10': ['Parser.__call__'],
@@ -93,7 +93,8 @@ TRUSTED = {
             'orderedness: a second GHOST component records the orderings a node\'s diagram respects (variable before its children\'s, children respect it); proved: if the operands of apply/compute/the decompositions, '
             '__invert__, cache_restrict/compute_restrict respect an ordering then so does the result, and no variable before the tops of all operands is at or after the top of the result; '
             'in_order(x, y) is modelled as position(x) < position(y) (ListOrdering.cmp; FunctionOrdering is not covered); reducedness (distinct children) is part of the table invariant (C16)',
-            'NOT under proof (bounded only): orderedness at the OBDD-wrapper level (equal orderings are different objects; respect_ordering is uninterpreted), variables(), '
+            'descendents() / variables(): the nodes reachable through low/high (least closed set; `least` by a skolem set on the callee side, forall Z on the caller side) and exactly the variables they test; termination not claimed',
+            'NOT under proof (bounded only): orderedness at the OBDD-wrapper level (equal orderings are different objects; respect_ordering is uninterpreted), a variable outside the ordering, '
             'the expression parser, garbage collection (TB7); BDDNode.restrict / OBDD.restrict are under proof for a Boolean value and a variable name for which isinstance(var, str) is an uninterpreted predicate (TypeError iff it is false)',
             'apply/compute may raise RuntimeError ("Unsupported configuration") when the ordering relates the two variables in no direction; the contract allows it without saying when'],
     'C02': ['only the wrapper LTL.modelcheck (object formula A g, F=None) is under proof: result = states all of whose paths satisfy g, GIVEN the assumed '
